@@ -21,7 +21,8 @@ RULE = ("World kind {SpaceWorld, DiscreteWorld, LineWorld, GridWorld} x per-axis
         "nothing, remove drops the position. 'float' cases (continuous, arbitrary finite floats |v|<=1e12) assert only "
         "containment and rejected => unchanged. Containment of every resident on every positive axis after EVERY op. "
         "Non-trivial: a move that wraps >= 1 lap or saturates on an axis whose extent differs from another positive axis'. "
-        "Distinct = digest of the case.")
+        "Distinct = digest of the case."
+        " Added in rounds 19-24: the model may be marked complete; placements in the origin / removals through the deprecated aliases; an operation 'use' (positional queries, listings edited by the caller, random picks - also before the first move); coordinates as zero-dimensional numpy arrays, the same array object for equal values.")
 ASSUMPTIONS = ["extents are 0 or >= 1 (the property's domain)", "zero-extent axes carry no claim and are ignored",
                "dyadic arithmetic with |values| < 2^50/8 is exact in binary floating point, so the Fraction model needs no tolerance"]
 
